@@ -49,7 +49,7 @@ func (o fsOp) String() string {
 	switch o.name {
 	case "write":
 		return fmt.Sprintf("write %s %d", o.a, o.n)
-	case "cp", "mv":
+	case "cp", "mv", "cpd", "cpf":
 		return fmt.Sprintf("%s %s %s", o.name, o.a, o.b)
 	}
 	return o.name + " " + o.a
@@ -200,14 +200,19 @@ func (b *fsBackend) exec(o fsOp) string {
 		return mapErr(fs.Rm(a))
 	case "clean":
 		return mapErr(fs.CleanDir(a))
-	case "cp", "mv":
+	case "cp", "mv", "cpd", "cpf":
 		// bounded by a deadline: a copy that keeps feeding on what it creates would otherwise never stop
 		ctx, cancel := context.WithTimeout(context.Background(), 700*time.Millisecond)
 		defer cancel()
 		var err error
-		if o.name == "cp" {
+		switch o.name {
+		case "cp":
 			err = fs.CopyWithContext(ctx, a, bb)
-		} else {
+		case "cpd":
+			err = fs.CopyToDirectoryWithContext(ctx, a, bb)
+		case "cpf":
+			err = fs.CopyToFileWithContext(ctx, a, bb)
+		default:
 			err = fs.MoveWithContext(ctx, a, bb)
 		}
 		if commonerrors.Any(err, commonerrors.ErrTimeout, commonerrors.ErrCancelled) || ctx.Err() != nil {
@@ -386,7 +391,8 @@ func runProgram(prog string, osRoot string) childResult {
 				}
 				_, after := b.dump()
 				dest := op.a
-				if op.name == "cp" || op.name == "mv" {
+				isCopy := op.name == "cp" || op.name == "cpd" || op.name == "cpf"
+				if isCopy || op.name == "mv" {
 					dest = strings.TrimSuffix(op.b, "/")
 				}
 				readOnly := map[string]bool{"read": true, "exists": true, "isfile": true, "isdir": true, "isempty": true, "ls": true, "lsr": true, "size": true}[op.name]
@@ -400,12 +406,12 @@ func runProgram(prog string, osRoot string) childResult {
 					if op.name == "mv" && isUnder(p, op.a) {
 						allowed = true // the source of a move goes away
 					}
-					if (op.name == "cp") && isUnder(p, op.a) && !isUnder(p, dest) {
+					if isCopy && isUnder(p, op.a) && !isUnder(p, dest) {
 						allowed = false
 					}
 					if !allowed {
 						key := "frame-violated:" + op.name
-						if op.name == "cp" && isUnder(p, op.a) {
+						if isCopy && isUnder(p, op.a) {
 							key = "copy-changes-its-source"
 						}
 						if bn == "mem" && strings.HasPrefix(v, "f") && av == "d" && isUnder(dest, p) && p != dest {
@@ -415,7 +421,7 @@ func runProgram(prog string, osRoot string) childResult {
 						rep.Fail(hx.Failure{Kind: "impl-violates-property", Key: key, Case: "fsprog " + prog + " [" + bn + "]", Expected: "entries outside the destination untouched", Observed: fmt.Sprintf("%s: %s was %s, now %q", op, p, v, av)})
 					}
 				}
-				if (op.name == "cp" || op.name == "mv" || op.name == "rm" || op.name == "clean") && before[op.a] != "" {
+				if (isCopy || op.name == "mv" || op.name == "rm" || op.name == "clean") && before[op.a] != "" {
 					nontriv = true
 				}
 			}
@@ -454,7 +460,7 @@ func fsProgMain(args []string) {
 	var lines []string
 	var results [][]progRes
 	var progs []string
-	opNames := []string{"mkdir", "touch", "write", "read", "exists", "isfile", "isdir", "isempty", "ls", "lsr", "rm", "clean", "cp", "cp", "cp", "mv", "mv", "size"}
+	opNames := []string{"mkdir", "touch", "write", "read", "exists", "isfile", "isdir", "isempty", "ls", "lsr", "rm", "clean", "cp", "cp", "cp", "mv", "mv", "size", "cpd", "cpf"}
 	if o.Replay != "" {
 		n = 0
 		for _, c := range hx.ReplayCases(o.Replay, "fsprog ") {
@@ -512,9 +518,9 @@ func fsProgMain(args []string) {
 		var ops []fsOp
 		for k := rnd.Range(1, 14); k > 0; k-- {
 			op := fsOp{name: hx.Pick(rnd, opNames), a: genPath(rnd, true), n: 1 + rnd.Intn(6)}
-			if op.name == "cp" || op.name == "mv" {
+			if op.name == "cp" || op.name == "mv" || op.name == "cpd" || op.name == "cpf" {
 				op.b = genPath(rnd, true)
-				if rnd.Chance(25) && op.b != "." {
+				if rnd.Chance(25) && op.b != "." && op.name != "cpf" {
 					op.b += "/"
 				}
 				if op.name == "mv" {
